@@ -6,22 +6,28 @@ Open Scope Z_scope.
 
 (* ------------------------------------------------------------------ what one frame does to [closed] and [pl] *)
 Definition grows (s0 s' : st) : Prop :=
-  exists ext, closed s' = closed s0 ++ ext /\ (ext = [] -> pl s' = pl s0).
+  exists ext, closed s' = closed s0 ++ ext /\ (ext = [] -> pl s' = pl s0) /\
+              (forall g, In g (pl s') -> In g (pl s0) \/ In g ext).
 
 Lemma grows_shape s0 s s' : shape s' = shape s -> grows s0 s -> grows s0 s'.
 Proof.
-  unfold shape. intros E (ext & A & B). injection E as _ _ E3 E4. exists ext. rewrite E3, E4. auto.
+  unfold shape. intros E (ext & A & B & C). injection E as _ _ E3 E4. exists ext. rewrite E3, E4. auto.
 Qed.
 
 Lemma grows_reap c start a s0 s g : cur s = Some g -> grows s0 s -> grows s0 (reap c start a s).
 Proof.
-  intros Hc (ext & A & B).
+  intros Hc (ext & A & B & C).
   pose proof (reap_spec c start a s g Hc) as R. cbn zeta in R.
   destruct R as (s1 & g' & CA & _ & _ & _ & _ & _ & _ & _ & _ & _ & R5 & R6 & _).
+  pose proof (closed_as_pl_in s g s1) as PI.
   destruct CA as [Hd E1 E2 E3 E4 E5 | Hd E1 E2 E3 E4 E5].
   - exists ext. rewrite R6, R5, E3, E2. auto.
-  - exists (ext ++ [g]). rewrite R6, E3, A, app_assoc. split; [reflexivity|].
-    intros H. destruct ext; discriminate.
+  - exists (ext ++ [g]). rewrite R6, E3, A, app_assoc. split; [reflexivity|]. split.
+    + intros H. destruct ext; discriminate.
+    + intros x Hx. rewrite R5 in Hx.
+      destruct (PI x (CA_keep s g s1 Hd E1 E2 E3 E4 E5) Hx) as [K| ->].
+      * destruct (C x K) as [K1|K1]; [left; exact K1 | right; apply in_or_app; left; exact K1].
+      * right. apply in_or_app. right. left. reflexivity.
 Qed.
 
 Lemma write_frame_grows c f s : grows s (write_frame c f s).
@@ -36,13 +42,18 @@ Proof.
   - exists []. rewrite app_nil_r. auto.
 Qed.
 
+Lemma new_closed_ext c f s ext : closed (write_frame c f s) = closed s ++ ext -> new_closed c f s = ext.
+Proof.
+  intros E. unfold new_closed. rewrite E, skipn_app, skipn_all, Nat.sub_diag. reflexivity.
+Qed.
+
 Lemma write_frame_closed_mono c f s g : In g (closed s) -> In g (closed (write_frame c f s)).
 Proof. intros H. destruct (write_frame_grows c f s) as (ext & A & _). rewrite A. apply in_or_app. left. exact H. Qed.
 
 (* a frame that does not take the write lock leaves the window alone *)
 Lemma no_wlock_pl c f s : takes_wlock c f s = false -> pl (write_frame c f s) = pl s.
 Proof.
-  unfold takes_wlock. intros H. destruct (write_frame_grows c f s) as (ext & A & B).
+  unfold takes_wlock. intros H. destruct (write_frame_grows c f s) as (ext & A & B & _).
   apply B. rewrite A, app_length in H. destruct ext; [reflexivity|]. cbn [length] in H.
   apply negb_false_iff, Nat.eqb_eq in H. lia.
 Qed.
@@ -56,11 +67,13 @@ Proof.
 Qed.
 
 (* ------------------------------------------------------------------ the invariant of the locked system *)
-Record J (l : lts) : Prop := {
+Record J (c : cfg) (l : lts) : Prop := {
   j_inv1 : Inv1 (l_st l);
   j_ok : forall r x, In r (l_recs l) -> fr_res r = Some x -> x = expected r;
   j_at : forall r g, In r (l_recs l) -> fr_at r = Some g -> s_seq g = fr_seq r /\ In g (closed (l_st l));
-  j_hold : forall r g, In r (l_recs l) -> fr_at r = Some g -> fr_res r = None -> In g (pl (l_st l))
+  j_hold : forall r g, In r (l_recs l) -> fr_at r = Some g -> fr_res r = None -> In g (pl (l_st l));
+  (* a segment is listed only when its store has been closed *)
+  j_flushed : forall g, In g (pl (l_st l)) -> In (s_seq g) (l_flushed l)
 }.
 
 Lemma has_holder_in l r g : In r l -> fr_at r = Some g -> fr_res r = None -> has_holder l = true.
@@ -69,29 +82,42 @@ Proof.
   unfold holding. rewrite Ha, Hr. reflexivity.
 Qed.
 
-Lemma J_init c fs : J (linit c fs).
-Proof. constructor; cbn; [apply Inv1_init | | |]; intros; contradiction. Qed.
+Lemma pl_init c : pl (init c) = [].
+Proof.
+  unfold init. pose proof (segment_open_spec c 0 true false init_free eq_refl) as SO. cbn zeta in SO.
+  destruct SO as (b & _ & _ & _ & _ & _ & O6 & _). exact O6.
+Qed.
 
-(* the writer runs its frame; sound when no reader holds the lock or the frame leaves the window alone *)
+Lemma J_init c fs : J c (linit c fs).
+Proof.
+  constructor; cbn [linit l_st l_recs l_flushed]; [apply Inv1_init | | | |]; try (intros; contradiction).
+  rewrite pl_init. intros g [].
+Qed.
+
+(* the writer runs its frame up to the listing; sound when no reader holds the lock or the frame leaves the
+   window alone; the store of what it lists has been closed first *)
 Lemma J_writer_go c l :
   (has_holder (l_recs l) = true -> forall f rest, l_in l = f :: rest -> takes_wlock c f (l_st l) = false) ->
-  J l -> J (writer_go c l).
+  J c l -> J c (writer_go false c l).
 Proof.
-  intros Hh [A B C D]. unfold writer_go. destruct (l_in l) as [|f rest] eqn:Hin.
+  intros Hh [A B C D F]. unfold writer_go. destruct (l_in l) as [|f rest] eqn:Hin.
   - constructor; cbn; assumption.
-  - constructor; cbn [l_st l_recs].
+  - constructor; cbn [l_st l_recs l_flushed].
     + apply Inv1_write_frame. exact A.
     + exact B.
     + intros r g Hr Ha. destruct (C r g Hr Ha) as [C1 C2]. split; [exact C1 | apply write_frame_closed_mono; exact C2].
     + intros r g Hr Ha Hn. rewrite (no_wlock_pl c f (l_st l)).
       * eapply D; eauto.
       * eapply Hh; [eapply has_holder_in; eauto | reflexivity].
+    + intros g Hg. destruct (write_frame_grows c f (l_st l)) as (ext & E1 & _ & E3).
+      rewrite (new_closed_ext _ _ _ _ E1). apply in_or_app.
+      destruct (E3 g Hg) as [K|K]; [right; apply F; exact K | left; apply in_map; exact K].
 Qed.
 
-Lemma copy_rec_in c s id l r' : In r' (copy_rec c s id l) ->
+Lemma copy_rec_in c fl s id l r' : In r' (copy_rec c fl s id l) ->
   In r' l \/
   exists r g, In r l /\ fr_at r = Some g /\ fr_res r = None /\
-              r' = {| fr_id := fr_id r; fr_seq := fr_seq r; fr_at := fr_at r; fr_res := Some (get_now c (s_seq g) s) |}.
+              r' = {| fr_id := fr_id r; fr_seq := fr_seq r; fr_at := fr_at r; fr_res := Some (get_now c fl (s_seq g) s) |}.
 Proof.
   induction l as [|r l IH]; cbn [copy_rec]; [intros []|].
   destruct ((fr_id r =? id) && holding r) eqn:E.
@@ -103,51 +129,55 @@ Proof.
     destruct (IH H) as [K|(r0 & g & K1 & K2)]; [left; right; exact K | right; exists r0, g; split; [right; exact K1 | exact K2]].
 Qed.
 
-Lemma J_copy c l id : J l ->
-  J {| l_st := l_st l; l_in := l_in l; l_blocked := l_blocked l; l_recs := copy_rec c (l_st l) id (l_recs l) |}.
+Lemma J_copy c l id : J c l -> J c (set_recs (copy_rec c (l_flushed l) (l_st l) id (l_recs l)) l).
 Proof.
-  intros [A B C D]. constructor; cbn [l_st l_recs]; [exact A | | |].
-  - intros r' x Hr' Hx. destruct (copy_rec_in _ _ _ _ _ Hr') as [K|(r & g & K1 & K2 & K3 & ->)]; [eapply B; eauto|].
+  intros [A B C D F]. constructor; cbn [set_recs l_st l_recs l_flushed]; [exact A | | | | exact F].
+  - intros r' x Hr' Hx. destruct (copy_rec_in _ _ _ _ _ _ Hr') as [K|(r & g & K1 & K2 & K3 & ->)]; [eapply B; eauto|].
     cbn [fr_res] in Hx. injection Hx as <-. unfold expected. cbn [fr_at]. rewrite K2.
-    unfold get_now. rewrite (find_seg_consecutive _ _ _ (i_cons _ A) (D r g K1 K2 K3)). reflexivity.
-  - intros r' g' Hr' Ha. destruct (copy_rec_in _ _ _ _ _ Hr') as [K|(r & g & K1 & K2 & K3 & ->)]; [eapply C; eauto|].
+    pose proof (D r g K1 K2 K3) as Hin.
+    unfold get_now. rewrite (find_seg_consecutive _ _ _ (i_cons _ A) Hin).
+    rewrite (mem_z_in _ _ (F g Hin)), orb_true_r. reflexivity.
+  - intros r' g' Hr' Ha. destruct (copy_rec_in _ _ _ _ _ _ Hr') as [K|(r & g & K1 & K2 & K3 & ->)]; [eapply C; eauto|].
     cbn [fr_at fr_seq] in *. eapply C; eauto.
-  - intros r' g' Hr' Ha Hn. destruct (copy_rec_in _ _ _ _ _ Hr') as [K|(r & g & K1 & K2 & K3 & ->)]; [eapply D; eauto|].
+  - intros r' g' Hr' Ha Hn. destruct (copy_rec_in _ _ _ _ _ _ Hr') as [K|(r & g & K1 & K2 & K3 & ->)]; [eapply D; eauto|].
     cbn [fr_res] in Hn. discriminate.
 Qed.
 
-Lemma J_step c l a : J l -> J (lstep true c l a).
+Lemma J_step c l a : J c l -> J c (lstep true c l a).
 Proof.
-  intros HJ. destruct a as [|id seq|id]; cbn [lstep].
+  intros HJ. unfold lstep. destruct a as [|id seq|id]; cbn [lstep_gen].
   - destruct (l_blocked l); [exact HJ|].
+    destruct (l_mid l).
+    { destruct HJ as [A B C D F]. constructor; cbn [writer_finish l_st l_recs l_flushed]; try assumption.
+      intros g Hg. apply in_or_app. right. apply F. exact Hg. }
     destruct (l_in l) as [|f rest] eqn:Hin; [exact HJ|].
     destruct (true && takes_wlock c f (l_st l) && has_holder (l_recs l)) eqn:E.
-    + destruct HJ as [A B C D]. constructor; cbn; assumption.
+    + destruct HJ as [A B C D F]. constructor; cbn; assumption.
     + apply J_writer_go; [|exact HJ]. intros Hh f' rest' Hf. rewrite Hin in Hf. injection Hf as <- <-.
       cbn [andb] in E. rewrite Hh, andb_true_r in E. exact E.
   - destruct (l_blocked l || id_used id (l_recs l)); [exact HJ|].
-    destruct HJ as [A B C D].
+    destruct HJ as [A B C D F].
     destruct (find_seg seq (pl (l_st l))) as [g|] eqn:Hf.
     + destruct (find_seg_some _ _ _ Hf) as [F1 F2].
-      constructor; cbn [l_st l_recs]; [exact A | | |].
+      constructor; cbn [set_recs l_st l_recs l_flushed]; [exact A | | | | exact F].
       * intros r x Hr Hx. apply in_app_or in Hr as [Hr|[<-|[]]]; [eapply B; eauto | discriminate].
       * intros r g' Hr Ha. apply in_app_or in Hr as [Hr|[<-|[]]]; [eapply C; eauto|].
         cbn in Ha. injection Ha as <-. cbn [fr_seq]. split; [exact F1|].
         destruct (i_suffix _ A) as [pre E]. rewrite E. apply in_or_app. right. exact F2.
       * intros r g' Hr Ha Hn. apply in_app_or in Hr as [Hr|[<-|[]]]; [eapply D; eauto|].
         cbn in Ha. injection Ha as <-. exact F2.
-    + constructor; cbn [l_st l_recs]; [exact A | | |].
+    + constructor; cbn [set_recs l_st l_recs l_flushed]; [exact A | | | | exact F].
       * intros r x Hr Hx. apply in_app_or in Hr as [Hr|[<-|[]]]; [eapply B; eauto|].
         cbn in Hx. injection Hx as <-. reflexivity.
       * intros r g' Hr Ha. apply in_app_or in Hr as [Hr|[<-|[]]]; [eapply C; eauto | discriminate].
       * intros r g' Hr Ha Hn. apply in_app_or in Hr as [Hr|[<-|[]]]; [eapply D; eauto | discriminate].
   - pose proof (J_copy c l id HJ) as HJ'.
-    destruct (l_blocked l && negb (has_holder (copy_rec c (l_st l) id (l_recs l)))) eqn:E; [|exact HJ'].
-    apply J_writer_go; [|exact HJ']. cbn [l_recs]. intros Hh.
+    destruct (l_blocked l && negb (has_holder (copy_rec c (l_flushed l) (l_st l) id (l_recs l)))) eqn:E; [|exact HJ'].
+    apply J_writer_go; [|exact HJ']. cbn [set_recs l_recs]. intros Hh.
     apply andb_true_iff in E as [_ E]. rewrite Hh in E. discriminate.
 Qed.
 
-Lemma J_run c sched : forall l, J l -> J (lrun true c l sched).
+Lemma J_run c sched : forall l, J c l -> J c (lrun true c l sched).
 Proof. induction sched as [|a t IH]; intros l H; [exact H|]. cbn [lrun]. apply IH, J_step, H. Qed.
 
 (* ------------------------------------------------------------------ the theorems *)
@@ -162,7 +192,7 @@ Theorem fetch_stable_under_rollover c fs sched :
     (forall g, fr_at r = Some g -> s_seq g = fr_seq r /\ In g (closed (l_st l))) /\
     fetch_ok r = true.
 Proof.
-  intros l r Hr. pose proof (J_run c sched (linit c fs) (J_init c fs)) as [A B C D]. fold l in A, B, C, D.
+  intros l r Hr. pose proof (J_run c sched (linit c fs) (J_init c fs)) as [A B C D F]. fold l in A, B, C, D.
   split; [intros x Hx; eapply B; eauto|]. split; [intros g Hg; eapply C; eauto|].
   unfold fetch_ok. destruct (fr_res r) as [x|] eqn:Hx; [|reflexivity].
   rewrite (B r x Hr Hx). destruct (expected r); cbn; try reflexivity.
@@ -186,14 +216,14 @@ Theorem lts_model_passes c fs sched :
   lts_ok c fs sched (fst (lts_model true c fs sched)) (snd (lts_model true c fs sched)) = true.
 Proof.
   unfold lts_ok, lts_model. cbn [fst snd].
-  pose proof (J_run c sched (linit c fs) (J_init c fs)) as [A B C D].
+  pose proof (J_run c sched (linit c fs) (J_init c fs)) as [A B C D F].
   rewrite results_ok_model by exact B. cbn [andb]. apply list_eqb_refl. intros []; reflexivity.
 Qed.
 
-(* the variant in which lookup and copy are not one critical section: fetch number 1 while it is listed,
-   let the fourth segment close (number 1 is evicted, its buffer recycled), copy: nil dereference in memory
+(* the variant in which lookup and copy are not one critical section: fetch number 1 while it is listed
+   (three segments closed: every closing frame is a list step and a finish step), let the fourth segment close (number 1 is evicted, its buffer recycled), copy: nil dereference in memory
    mode, an error in disk mode — and the writer never waited *)
-Definition race_sched : list label := [LW; LW; LW; LW; LW; LW; LW; LLookup 0 1; LW; LW; LCopy 0].
+Definition race_sched : list label := [LW; LW; LW; LW; LW; LW; LW; LW; LW; LW; LLookup 0 1; LW; LW; LCopy 0].
 Definition race_frames : list frame := map d19_key [0; 1; 2; 3; 4; 5; 6; 7; 8].
 Definition disk_cfg : cfg :=
   {| c_frag := 1; c_rate := 44100; c_mem := false; c_copy := true; c_path := [47; 97]; c_sps := [103]; c_pps := [104];
@@ -206,4 +236,39 @@ Theorem fetch_unlocked_refuted :
   (* the same schedule on the locked system: the writer waits and the fetch gets segment 1 *)
   forallb fetch_ok (l_recs (lrun true d35_cfg (linit d35_cfg race_frames) race_sched)) = true /\
   existsb (fun b => b) (ltrace true d35_cfg (linit d35_cfg race_frames) race_sched) = true.
+Proof. repeat split; vm_compute; reflexivity. Qed.
+
+(* ------------------------------------------------------------------ listed => complete *)
+(* in every reachable state of the system as it is — between any two steps of any schedule, in particular while
+   the writer stands between the listing and the rest of the frame — every listed segment has a closed store,
+   so a fetch at any point after the listing gets the whole transport stream of that number *)
+Theorem listed_segment_is_complete c fs sched :
+  let l := lrun true c (linit c fs) sched in
+  (forall g, In g (pl (l_st l)) -> In (s_seq g) (l_flushed l)) /\
+  listed_complete c l = true /\
+  (forall seq g, find_seg seq (pl (l_st l)) = Some g ->
+     get_now c (l_flushed l) seq (l_st l) = FBytes (s_frames g)).
+Proof.
+  intros l. pose proof (J_run c sched (linit c fs) (J_init c fs)) as [A B C D F]. fold l in A, B, C, D, F.
+  split; [exact F|]. split.
+  - unfold listed_complete. apply orb_true_iff. right. apply forallb_forall. intros g Hg. apply mem_z_in, F, Hg.
+  - intros seq g Hf. unfold get_now. rewrite Hf. destruct (find_seg_some _ _ _ Hf) as [E Hin].
+    rewrite <- E, (mem_z_in _ _ (F g Hin)), orb_true_r. reflexivity.
+Qed.
+
+(* the variant that closes the store after the listing (close deferred to the end of segmentClose): on disk a
+   fetch between the listing and the finish step gets a file without the buffered tail; in memory mode the
+   variant is harmless; once the writer has finished the frame the same fetch is fine *)
+Definition expected_of (c : cfg) (fs : list frame) : fres :=
+  match find_seg 1 (closed (feed c fs (init c))) with Some g => FBytes (s_frames g) | None => FNotFound end.
+Definition late_frames : list frame := map d19_key [0; 1; 2; 3].
+Definition late_sched : list label := [LW; LW; LW; LLookup 0 1; LCopy 0; LW; LLookup 1 1; LCopy 1].
+
+Theorem listed_incomplete_refuted :
+  map fr_res (l_recs (lrun_gen true true disk_cfg (linit disk_cfg late_frames) late_sched))
+    = [Some FPartial; Some (expected_of disk_cfg late_frames)] /\
+  listed_complete disk_cfg (lrun_gen true true disk_cfg (linit disk_cfg late_frames) [LW; LW; LW]) = false /\
+  forallb fetch_ok (l_recs (lrun_gen true true disk_cfg (linit disk_cfg late_frames) late_sched)) = false /\
+  forallb fetch_ok (l_recs (lrun_gen true true d35_cfg (linit d35_cfg late_frames) late_sched)) = true /\
+  forallb fetch_ok (l_recs (lrun true disk_cfg (linit disk_cfg late_frames) late_sched)) = true.
 Proof. repeat split; vm_compute; reflexivity. Qed.
